@@ -11,6 +11,7 @@ import (
 	"go/types"
 	"net/http"
 	"net/textproto"
+	"runtime"
 	"sort"
 	"strconv"
 	"strings"
@@ -767,13 +768,13 @@ func (i *interpreter) fmtOne(fr *frame, spec string, verb byte, it iface) value 
 			return types.TypeString(v.(rtype).t, func(p *types.Package) string { return p.Name() })
 		}
 		if m := i.findMethod(it.t, "Error"); m != nil {
-			return call(i, fr, token.NoPos, m, []value{v})
+			return i.fmtCallMethod(fr, m, v, rune(verb), "Error")
 		}
 		if it.t == errorType {
 			return v
 		}
 		if m := i.findMethod(it.t, "String"); m != nil {
-			return call(i, fr, token.NoPos, m, []value{v})
+			return i.fmtCallMethod(fr, m, v, rune(verb), "String")
 		}
 	}
 	switch x := v.(type) {
@@ -1311,4 +1312,32 @@ func init() {
 	}
 	externals["sort.Slice"] = sorter(false)
 	externals["sort.SliceStable"] = sorter(true)
+}
+
+// fmtCallMethod calls an Error/String method the way package fmt does
+// (fmt.(*pp).catchPanic): a panic raised by the method does not escape the
+// formatting call; a nil pointer receiver prints as "<nil>", anything else as
+// "%!v(PANIC=Method method: ...)".
+func (i *interpreter) fmtCallMethod(fr *frame, m *ssa.Function, recv value, verb rune, name string) (out value) {
+	defer func() {
+		if p := recover(); p != nil {
+			var msg string
+			switch x := p.(type) {
+			case targetPanic:
+				msg = toStringSym(x.v)
+			case runtimeErrorString:
+				msg = x.Error()
+			case runtime.Error:
+				msg = x.Error()
+			default:
+				panic(p) // engine errors, path aborts
+			}
+			if pv, ok := recv.(*value); ok && pv == nil {
+				out = "<nil>"
+				return
+			}
+			out = "%!" + string(verb) + "(PANIC=" + name + " method: " + msg + ")"
+		}
+	}()
+	return call(i, fr, token.NoPos, m, []value{recv})
 }
